@@ -14,8 +14,8 @@ func init() {
 			return []HarnessSpec{
 				{Pkg: "cmd/commands", Fn: "VerifC18Validate", CrossCheck: true, Native: "VerifC18ValidateNative", Reach: []string{"lib-failed", "printed", "readonly", "wrote-file"},
 					Bounds: map[string]any{"report_len": "1..3 symbolic bytes", "prior_len": "0..5 symbolic bytes", "prior_state": "absent|present|read-only"}},
-				{Pkg: "cmd/commands", Fn: "VerifC18Generate", Reach: []string{"lib-failed", "printed"}, Bounds: map[string]any{"code_len": "1..3 symbolic bytes"}},
-				{Pkg: "cmd/commands", Fn: "VerifC18Normalize", Reach: []string{"lib-failed", "printed"}, Bounds: map[string]any{"text_len": "1..3 symbolic bytes"}},
+				{Pkg: "cmd/commands", Fn: "VerifC18Generate", Native: "VerifC18GenerateNative", Reach: []string{"lib-failed", "printed"}, Bounds: map[string]any{"code_len": "1..3 symbolic bytes"}},
+				{Pkg: "cmd/commands", Fn: "VerifC18Normalize", Native: "VerifC18NormalizeNative", Reach: []string{"lib-failed", "printed"}, Bounds: map[string]any{"text_len": "1..3 symbolic bytes"}},
 				{Pkg: "cmd/commands", Fn: "VerifC18Args", Reach: []string{"bad-invocation", "good-invocation"}, Bounds: map[string]any{"len(os.Args)": "2..6", "input files": "present|missing"}},
 			}
 		},
@@ -155,7 +155,7 @@ func init() {
 	})
 
 	reg(&PropertySpec{
-		ID: "C07", Level: "model_checking",
+		ID: "C07", Level: "model_checking", Extra: regoC07,
 		Rule: "one state = one feasible path of the real generator for one symbolic counter value / path shape / mode; the module each path produces is handed to the linked OPA's real parser+compiler (native on concrete text)",
 		Harnesses: func(tier string) []HarnessSpec {
 			return []HarnessSpec{
